@@ -239,8 +239,23 @@ def m1_cmdseq(ctx: Any, prog: Program) -> None:
             chosen = dotted(vt if res else vf)
             ctx.check('C20.M1', chosen == 'ST_COMMAND', mod, test, f'write() stores version {wver[0]} (float32 {stored!r}) and packs ST_COMMAND; parse() evaluates `{U(test)}` = {res} and unpacks with {chosen}', func='parse',
                       text='cmdseq version selects struct')
-    ok = "unpack('I', file.read(4))" in src_p and "file.write(pack('I', len(sequences)))" in src_w and "file.write(pack('I', len(commands)))" in src_w and 'strip_cstring(file.read(128))' in src_p and 'pad_string(name, 128)' in src_w
-    ctx.shape('C20.M1', ok, mod, wf, 'sequence count, 128-byte name, command count', func='write', text='cmdseq sequence header')
+    def _width(e: ast.AST) -> Any:
+        if isinstance(e, ast.Constant):
+            return e.value
+        if isinstance(e, ast.Name):
+            try:
+                return fold.global_(e.id)
+            except Exception:
+                return None
+        return None
+    pf_ = mod.func('parse')
+    name_r = [_width(c.args[0].args[0]) for c in ast.walk(pf_) if isinstance(c, ast.Call) and dotted(c.func) == 'strip_cstring' and len(c.args) == 1 and isinstance(c.args[0], ast.Call) and dotted(c.args[0].func) == 'file.read' and c.args[0].args]
+    name_w = [_width(c.args[1]) for c in ast.walk(wf) if isinstance(c, ast.Call) and dotted(c.func) == 'pad_string' and len(c.args) == 2 and isinstance(c.args[0], ast.Name) and not any(c is a for pk_ in ast.walk(wf) if isinstance(pk_, ast.Call) and dotted(pk_.func) == 'ST_COMMAND.pack' for a in ast.walk(pk_))
+              and not any(isinstance(a_, ast.Assign) and a_.value is c for a_ in ast.walk(wf))]
+    ok = "unpack('I', file.read(4))" in src_p and "file.write(pack('I', len(sequences)))" in src_w and "file.write(pack('I', len(commands)))" in src_w and len(name_r) == 1 and len(name_w) == 1 and isinstance(name_r[0], int)
+    ctx.shape('C20.M1', ok, mod, wf, 'sequence count, fixed-width name, command count', func='write', text='cmdseq sequence header')
+    if ok:
+        ctx.check('C20.M1', name_r[0] == name_w[0], mod, wf, f'parse() reads a sequence name of {name_r[0]} bytes, write() pads it to {name_w[0]}', func='write', text='cmdseq sequence name width')
     ok = 'ST_COMMAND.pack(' in src_w and 'cmd_struct.unpack(file.read(cmd_struct.size))' in src_p
     ctx.shape('C20.M1', ok, mod, wf, 'commands are packed and unpacked with the ST_COMMAND struct object', func='write', text='cmdseq command struct')
     fmt = fold.global_('ST_COMMAND').fmt
@@ -1619,6 +1634,19 @@ def m2_smd(ctx: Any, prog: Program) -> None:
                 tests.append(cur.test)
             cur = mod.parents.get(cur)
         parent_known = any(isinstance(c, ast.Compare) and isinstance(c.ops[0], ast.In) and isinstance(c.left, ast.Attribute) and c.left.attr == 'parent' for t in tests for c in ast.walk(t))
+        # the same as a guard clause in front of the write: `if bone.parent and bone.parent not in <indexes>: continue`
+        child_ = nw
+        par_ = mod.parents.get(child_)
+        while par_ is not None and par_ is not exp and not parent_known:
+            for fld_ in ('body', 'orelse'):
+                blk_ = getattr(par_, fld_, None)
+                if isinstance(blk_, list) and child_ in blk_:
+                    for st_ in blk_[:blk_.index(child_)]:
+                        if isinstance(st_, ast.If) and not st_.orelse and st_.body and isinstance(st_.body[-1], (ast.Continue, ast.Raise, ast.Return)):
+                            conj_ = st_.test.values if isinstance(st_.test, ast.BoolOp) and isinstance(st_.test.op, ast.And) else [st_.test]
+                            if any(isinstance(c, ast.Compare) and len(c.ops) == 1 and isinstance(c.ops[0], ast.NotIn) and isinstance(c.left, ast.Attribute) and c.left.attr == 'parent' for c in conj_):
+                                parent_known = True
+            child_, par_ = par_, mod.parents.get(par_)
         ctx.check('C20.M2', parent_known, mod, nw, 'Mesh.export writes a node line without first establishing that the parent of the bone has been written (`bone.parent in <indexes assigned so far>`): '
                   'with a child stored before its parent in Mesh.bones the line names an index that is only defined further down, and parse_smd raises "Undefined parent bone"', func='Mesh.export', text='smd nodes written parents first')
 
